@@ -1,6 +1,7 @@
 package sim
 
 import (
+	"bytes"
 	"encoding/hex"
 	"fmt"
 	"math/big"
@@ -1173,6 +1174,38 @@ func mutateClaim(claim cctypes.ExternalClaim, field, val string) error {
 			return fmt.Errorf("alias: no such spelling")
 		}
 		f.SetString(hex.EncodeToString([]byte(alts[k])))
+		return nil
+	}
+	if strings.HasPrefix(field, "pad:") {
+		// a hex string field with another amount of leading zero bytes (0: none, 1: left-padded to a 32-byte word,
+		// 2: other bytes in front of the last 32): equal as numbers or words, different as byte strings
+		f := rv.FieldByName(strings.TrimPrefix(field, "pad:"))
+		if !f.IsValid() || f.Kind() != reflect.String || f.String() == "" {
+			return fmt.Errorf("pad: not a string field")
+		}
+		raw, err := hex.DecodeString(f.String())
+		if err != nil || len(raw) == 0 {
+			return fmt.Errorf("pad: not hex")
+		}
+		var nv []byte
+		switch val {
+		case "0":
+			nv = bytes.TrimLeft(raw, "\x00")
+		case "1":
+			if len(raw) >= 32 {
+				return fmt.Errorf("pad: already a word")
+			}
+			nv = append(make([]byte, 32-len(raw)), raw...)
+		default:
+			if len(raw) < 32 {
+				raw = append(make([]byte, 32-len(raw)), raw...)
+			}
+			nv = append([]byte{0xab, 0xcd}, raw[len(raw)-32:]...)
+		}
+		if len(nv) == 0 || bytes.Equal(nv, raw) && val != "2" || hex.EncodeToString(nv) == f.String() {
+			return fmt.Errorf("pad: no change")
+		}
+		f.SetString(hex.EncodeToString(nv))
 		return nil
 	}
 	if strings.HasPrefix(field, "swap:") {
